@@ -185,7 +185,7 @@ impl Prop for C12 {
     }
 }
 
-const REREG: &[(i32, bool)] = &[(105, true), (105, false), (125, true), (125, false)];
+const REREG: &[(i32, bool)] = &[(105, true), (105, false), (125, true), (125, false), (121, true), (111, false)];
 
 fn rereg_histories() -> Vec<Vec<(i32, bool)>> {
     let mut v = Vec::new();
@@ -210,8 +210,8 @@ fn run_rereg(h: &[(i32, bool)], out: &mut WorkerOut) {
     use crate::model::lex::InfixInfo;
     use expression_engine::{InfixOpAssociativity, InfixOpType};
     use std::sync::Arc;
-    let kinds: Vec<Kind> = ["xop", "*", "+"].iter().map(|o| Kind::Infix(o.to_string())).collect();
-    let trees = trees_by_size(&kinds, 2);
+    let kinds: Vec<Kind> = ["xop", "*", "+", "in"].iter().map(|o| Kind::Infix(o.to_string())).collect();
+    let trees = trees_by_size(&kinds, 3);
     let rot = crate::gen::leaf_rotation();
     let mut ops = OpSet::builtin();
     for (step, (prec, left)) in h.iter().enumerate() {
@@ -224,7 +224,7 @@ fn run_rereg(h: &[(i32, bool)], out: &mut WorkerOut) {
         );
         ops.infix.insert("xop".into(), InfixInfo { prec: *prec, left: *left, setter: false });
         let mut tmp = WorkerOut::default();
-        for t in trees[1].iter().chain(trees[2].iter()) {
+        for t in trees[1].iter().chain(trees[2].iter()).chain(trees[3].iter()) {
             let mut n = 0;
             let t = relabel(t, &mut n, &rot);
             let text = parse::print(&t, &ops, Parens::Full);
